@@ -61,6 +61,13 @@ EXPLANATION = ("HTML tokenizer model: no panic, termination within fuelFor (stri
 STRESS = ["<", "&", "&a", "&#", "&#x", "<!", "<!-", "<!--", "--", "<a ", "<a b=", "<a b='", "</", "<![CDATA[", "]]", "\r", "\r\n",
           "\0", "<script>", "</script", "<!DOCTYPE", " PUBLIC", "'", "\"", "=", "/", "&amp", "&notit;", "é", "\U0001F600", "<p>", "</p>"]
 
+XML_EDGE = ["<doc><item>text</ITEM>", "<doc><item>text</ITEM></item></doc>", "<a><b></B></a>", "<A></a>", "<a><B/></b>",
+            "<x:a xmlns:x='u'></X:a>", "<x:a xmlns:x='u'><x:b></x:B></x:a>", "<a></A><b/>", "<doc><item>t</Item></doc>x",
+            "<a><b><c></B></A>", "<script></SCRIPT>x", "<a></a></a>", "</a>", "<a><b></a></b>", "<a xmlns='u'><b xmlns=''></B></a>",
+            "<a><b></b></a></b>", "<a/></a>", "<a><!--c--></A><?p?>", "<é></É>", "<a></a ><b></B >"]
+META_LABELS = ["utf-8", "utf-8é;", "é", "€uro", "utf-8\u00a0x", "x\u3000y", "\U0001f600;", "é\ty", "windows-1252é z", "\u00e9\u00e9;",
+               "utf-8\u2028", "a\u0301;b", "", ";", "é;é;é"]
+
 UNITS = {
     "div": "<div>", "b": "<b>", "a": "<a>", "p": "<p>x", "table": "<table>", "td": "<table><tr><td>", "template": "<template>",
     "select": "<select><option>", "svg": "<svg>", "math": "<math><mi>", "nobr": "<nobr>", "li": "<ul><li>", "dd": "<dd>",
@@ -158,6 +165,16 @@ def gen_cases(tier, rng):
                     cases.append(("total\t%s\t%s\t%d\t%d*%s" % (k, opts, size, d, _hx(unit)), "total"))
         cases.append(("total\txml\t-\t0\t%d*%s" % (depth, _hx(unit)), "total-xml"))
         cases.append(("total\txml\texact\t7\t%d*%s" % (depth // 10, _hx(unit)), "total-xml"))
+    # small XML documents whose end tags match an open element only up to ASCII case / not at all / twice, and HTML
+    # documents whose <meta> carries a charset label with multi-byte characters (encoding.rs slices the attribute value)
+    for doc in XML_EDGE:
+        for opts, size in (("-", 0), ("exact", 1), ("-", 3)):
+            cases.append(("total\txml\t%s\t%d\t1*%s" % (opts, size, _hx(doc)), "total-xml-edge"))
+    for label in META_LABELS:
+        for tmpl in ("<meta http-equiv=content-type content='text/html; charset=%s'>x", "<meta charset='%s'>x",
+                     "<meta http-equiv=Content-Type content=\"a;charset=%s ;b\"><p>", "<head><meta content='charset=%s;' http-equiv='content-type'>"):
+            for size in (0, 1):
+                cases.append(("total\thtml\t-\t%d\t1*%s" % (size, _hx(tmpl % label)), "total-meta"))
     # mixed: deep then misnested closers
     for a, b in (("b", "endb"), ("a", "enda"), ("p", "endp"), ("aa", "enda"), ("formtable", "endb"), ("td", "endp"), ("template", "endb")):
         cases.append(("total\thtml\t-\t0\t%d*%s|%d*%s" % (depth, _hx(UNITS[a]), depth, _hx(UNITS[b])), "total-mixed"))
